@@ -13,7 +13,7 @@
 From Coq Require Import List ZArith Bool.
 From TM Require Import Gram.Derive.
 From TM Require Import Gram.Cfg Gram.LalrRef Gram.Prec Gram.Prec_proofs Gram.PTables Gram.LalrTables.
-From TM Require Import Gram.LalrSpec Gram.LalrSpec_proofs Gram.LalrSpec_proofs2 Gram.LalrSpec_proofs3 Gram.LalrCert Gram.LalrCert_proofs Gram.LalrBuild_proofs Gram.LalrTables_proofs.
+From TM Require Import Gram.LalrSpec Gram.LalrSpec_proofs Gram.LalrSpec_proofs2 Gram.LalrSpec_proofs3 Gram.LalrCert Gram.LalrCert_proofs Gram.LalrBuild_proofs Gram.LalrTables_proofs Gram.LalrRefute_proofs.
 Import ListNotations.
 Local Open Scope Z_scope.
 
@@ -116,6 +116,16 @@ Theorem C03_lalr_la_covers :
   exists q, reach a i gamma q /\ In x (la_get (lalr_la g a fuel) q it).
 Proof. exact lalr_la_covers. Qed.
 
+(* With the literal textbook closure rule the statement is FALSE for the reference (and for textmapper, whose
+   lookahead sets agree with it) on grammars with a non-productive nonterminal: in  S -> A B; A -> C x; B -> B;
+   C -> c  the item [C -> . c] of the start state gets lookahead x although [A -> . C x] has no textbook
+   lookahead at all (FIRST(B eoi) is empty).  This is why lr1_valid splits the closure rule. *)
+Theorem C03_lalr_la_textbook_refuted :
+  exists g fuel q it x, let a := fst (build_automaton g fuel) in
+    la_cert g a fuel = true /\ In x (la_get (lalr_la g a fuel) q it) /\
+    ~ (exists i gamma, reach a i gamma q /\ lr1_valid_tb g i gamma it x).
+Proof. exact lalr_la_textbook_refuted_ex. Qed.
+
 (* The inductive nullable / FIRST of the definition against the derivations of Gram/Derive.v: nullable is
    "derives the empty string", and FIRST(X) contains the first terminal of every terminal string X derives
    (FIRST itself is defined on sentential forms, so it does not depend on productivity). *)
@@ -173,3 +183,4 @@ Print Assumptions C03_lalr_la_covers.
 Print Assumptions C03_nullable_is_derives_empty.
 Print Assumptions C03_first_contains_derivable_firsts.
 Print Assumptions C03_reference_views_are_LALR1.
+Print Assumptions C03_lalr_la_textbook_refuted.
